@@ -4,7 +4,7 @@
    the Go code by the correspondence check); the vocabulary of the statements is
    Auth/AuthSpec.v.  MD5, base64, url.ParseQuery and non-ASCII lower-casing are
    universally quantified functions (no law is needed except where stated). *)
-From Lal Require Import Common.LBytes Auth.AuthStr Auth.AuthSimple Auth.AuthRtsp Auth.AuthPaths Auth.AuthBlacklist
+From Lal Require Import Common.LBytes Auth.AuthStr Auth.AuthSimple Auth.AuthRtsp Auth.AuthPaths Auth.AuthBlacklist Auth.AuthGate
   Auth.AuthSpec Auth.AuthSimpleProofs Auth.AuthRtspProofs Auth.AuthPathsProofs Auth.AuthBlacklistProofs.
 Open Scope N_scope.
 
@@ -39,6 +39,16 @@ Theorem c14_simple_either_case : forall md5raw parse_query lower_uni cfg dir pro
   sa_decide md5raw parse_query lower_uni cfg dir proto stream param = SaOk.
 Proof. exact either_case_admitted. Qed.
 Print Assumptions c14_simple_either_case.
+
+(* a rejected play request gets an error back, is not listed by the stat API and has
+   nothing written to its connection (admission step of ServerManager.OnNew*SubSession;
+   driven end to end for HTTP-FLV and HTTP-TS subscribers) *)
+Theorem c14_rejected_no_session : forall md5raw parse_query lower_uni cfg proto stream param,
+  let d := sa_decide md5raw parse_query lower_uni cfg 1 proto stream param in
+  (d <> SaOk -> go_code (sm_on_new_http_sub d) <> 0 /\ go_listed (sm_on_new_http_sub d) = 0 /\ go_wrote (sm_on_new_http_sub d) = false)
+  /\ (d = SaOk -> sm_on_new_http_sub d = mk_gate_out 0 1 true).
+Proof. intros. split; [destruct d; intros H; try congruence; repeat split; discriminate|intros ->; reflexivity]. Qed.
+Print Assumptions c14_rejected_no_session.
 
 (* F-19, pinned tree: a request carrying the configured override secret is rejected
    when that secret has an upper-case letter *)
